@@ -28,6 +28,31 @@ def g_matches(mem, strings):
     return glist(out)
 
 
+FRAG_BASES = (4096, 20480)
+
+
+def frag_regions(case):
+    """The input of the case as two regions at non-zero bases, or None when the condition reads integers (or
+    the input is too short to cut)."""
+    if '"readint"' in json.dumps(case["cond"]):
+        return None
+    mem = bytes.fromhex(case["mem"])
+    if len(mem) < 2:
+        return None
+    cut = max(1, (len(mem) * 2) // 3)
+    return [(FRAG_BASES[0], mem[:cut]), (FRAG_BASES[1], mem[cut:])]
+
+
+def g_matches_regions(regs, strings):
+    out = []
+    for _, pat in strings:
+        ms = []
+        for base, mem in regs:
+            ms += ["{| m_base := %d; m_off := %d; m_len := %d |}" % (base, o, len(pat)) for o in cond.find_all(mem, pat)]
+        out.append(glist(ms))
+    return glist(out)
+
+
 def strings_section(strings):
     return "strings:\n" + "\n".join("    $%s = %s" % (n, cond.ybytes(p)) for n, p in strings)
 
@@ -52,7 +77,9 @@ class C04(Prop):
             "lists with bound identifiers, wrapping arithmetic, shifts, division/modulo by zero, comparisons, string "
             "operators, filesize, intXX/uintXX reads, defined, and/or/not, external symbols.  The rule verdict and the "
             "value of up to 4 integer sub-expressions (through console.log probes) are compared with the model "
-            "(Model/Eval.v) and the declarative semantics (Spec/CondSem.v).  Non-trivial: the condition contains a "
+            "(Model/Eval.v) and the declarative semantics (Spec/CondSem.v); the rule verdict is also taken with the "
+            "default parameters (first evaluation pass allowed) and, for conditions that read no integer, on the same "
+            "input cut in two regions at non-zero bases (scan_fragmented: matches carry a base, no file size).  Non-trivial: the condition contains a "
             "string query or a quantifier; distinct by (condition, input).")
     TRUSTED = ["Coq 8.16.1 kernel + vm_compute", "harness/src/scan.rs", "vlib/cond.py (one AST printed to YARA text and "
                "to a Gallina term)", "string matches of plain text strings computed by Python's bytes.find"]
@@ -139,6 +166,20 @@ class C04(Prop):
             if isinstance(o, dict):
                 o["default_run"] = ({"error": d.get("error"), "matched": [r["name"] for r in d.get("rules", []) if r["matched"]]}
                                     if isinstance(d, dict) and "rules" in d else {"error": str(d)[:200]})
+        # the same condition on fragmented memory: the input cut in two regions at non-zero bases (matches then
+        # carry a base; no file size, no direct reads — conditions reading integers are left out, the code reads
+        # them through the regions, the model has no memory there)
+        fix = [i for i, c in enumerate(cases) if frag_regions(c) is not None]
+        fcases = []
+        for i in fix:
+            h = self.harness_case(cases[i])
+            h["input"] = {"regions": [{"start": b, "hex": m.hex()} for b, m in frag_regions(cases[i])]}
+            fcases.append(h)
+        fouts = core.harness_run(ctx.binp, "scan", fcases) if fcases else []
+        for i, f in zip(fix, fouts):
+            if isinstance(outs[i], dict):
+                outs[i]["frag_run"] = ({"error": f.get("error"), "matched": [r["name"] for r in f.get("rules", []) if r["matched"]]}
+                                       if isinstance(f, dict) and "rules" in f else {"error": str(f)[:200]})
         return outs
 
     def term(self, ctx, case, out):
@@ -163,8 +204,17 @@ class C04(Prop):
         ctx.count("verdict=%s" % verdict)
         ctx.count("probes_logged", len(logs))
         ctx.count("probes_undefined", len(case["probes"]) - len(logs))
-        return "C04_case %s %s %s %s %s %s" % (g_matches(mem, STRINGS), ext, gbytes(mem), pr.g(tup(case["cond"])),
+        main = "C04_case %s %s %s %s %s %s" % (g_matches(mem, STRINGS), ext, gbytes(mem), pr.g(tup(case["cond"])),
                                                gbool(verdict), probes)
+        fr = out.get("frag_run")
+        if fr is None:
+            return main
+        if fr.get("error"):
+            ctx.notes.append("fragmented run fails: %s" % fr)
+            return (False, False, 0)
+        ctx.count("fragmented verdict=%s" % ("c" in fr["matched"]))
+        return ("(let '(a, b, k) := %s in let '(a2, b2, _) := C04_frag_case %s %s %s %s in (a && a2, b && b2, k))"
+                % (main, g_matches_regions(frag_regions(case), STRINGS), ext, pr.g(tup(case["cond"])), gbool("c" in fr["matched"])))
 
     def nontrivial(self, case, out):
         s = json.dumps(case["cond"])
